@@ -5,7 +5,7 @@ from __future__ import annotations
 import itertools
 from math import comb, sqrt
 
-from vf.combi import combinations_range, digits
+from vf.combi import combinations_range, digits, fresh
 from vf.core import Job, new_result, viol
 from vf.guard import guarded, too_many_hangs
 
@@ -113,7 +113,7 @@ def check_path(path, s, goalset, w, objective, lab_inv):
     return None
 
 
-LABELS = [None, ["a", "b", "c", "d"], [("p", 0), ("p", 1), ("q", 0), ("q", 1)], [None, 0, "", (2,)]]  # last: falsy / None labels
+LABELS = [None, ["a", "b", "c", "d"], [("p", 0), ("p", 1), ("q", 0), ("q", 1)], [None, 0, "", (2,)], [1000, "node-b", (1, (2, 3)), 2.5]]  # falsy / None labels; big int, long string, nested tuple
 
 
 def _run_nonneg(r, n, arcs, full):
@@ -187,7 +187,7 @@ def _run_nonneg(r, n, arcs, full):
 
     label_sets = LABELS if full else LABELS[:1]
     for li, labs in enumerate(label_sets):
-        lab = (lambda x: labs[x]) if labs else (lambda x: x)
+        lab = (lambda x: fresh(labs[x])) if labs else (lambda x: x)  # equal, not identical, objects at every use
         inv = {lab(x): x for x in range(n)}
         nbw = lambda u: [(lab(v), x) for v, x in adjw[inv[u]]]  # noqa: E731
         nbu = lambda u: [lab(v) for v in adju[inv[u]]]  # noqa: E731
